@@ -96,7 +96,7 @@ theorem foldl_consts (st : RSt) (ms : List LitM) :
 theorem filterMap_names (ss : List Scalar) : (ss.map (fun x => TExpr.name x.id)).filterMap TExpr.constVal? = [] := by
   induction ss with
   | nil => rfl
-  | cons a t ih => simp [TExpr.constVal?, ih]
+  | cons a t ih => simpa [TExpr.constVal?] using ih
 theorem filterMap_consts (ms : List LitM) :
     (ms.map (fun x => TExpr.const x.const)).filterMap TExpr.constVal? = ms.map LitM.const := by
   induction ms with
